@@ -18,7 +18,7 @@ for f in $(cd "$out" && find . -name '*_test.go'); do
 done
 [ -f "$demo_path" ] || { for f in $(cd "$out" && find . -name '*_test.go'); do mkdir -p "$(dirname $f)"; cp "$out/$f" "$f"; done; }
 pkg=./$(dirname "$demo_path")
-run=$(echo "$demo_cmd" | grep -o '\-run [^ ]*' | head -1)
+run=$(echo "$demo_cmd" | grep -o '\-run [^ ]*' | head -1 | tr -d "'\"")
 echo "-- without patch (expect PASS)"
 go test -vet=off -count=1 $run $pkg 2>&1 | tail -3
 r0=${PIPESTATUS[0]}
